@@ -1,7 +1,7 @@
 (* Generic driver for the extracted Coq models.  Parsing and printing only:
    reads one s-expression per line on stdin, applies Model.dispatch <code>, prints the result.
    Numbers are hexadecimal ("1f", "-a", "0"), byte strings are quoted hex ("6869"). *)
-open Model
+module M = Model
 
 let hexval c = match c with
   | '0'..'9' -> Char.code c - 48
@@ -10,34 +10,34 @@ let hexval c = match c with
   | _ -> failwith (Printf.sprintf "bad hex digit %c" c)
 
 (* positive from a hex string, most significant digit first; None for zero *)
-let pos_of_hex (s : string) : positive option =
+let pos_of_hex (s : string) : M.positive option =
   let acc = ref None in
   String.iter (fun c ->
     let v = hexval c in
     for i = 3 downto 0 do
       let b = (v lsr i) land 1 = 1 in
       acc := (match !acc with
-              | None -> if b then Some XH else None
-              | Some p -> Some (if b then XI p else XO p))
+              | None -> if b then Some M.XH else None
+              | Some p -> Some (if b then M.XI p else M.XO p))
     done) s;
   !acc
 
-let z_of_hex (s : string) : z =
+let z_of_hex (s : string) : M.z =
   if String.length s > 0 && s.[0] = '-' then
-    (match pos_of_hex (String.sub s 1 (String.length s - 1)) with None -> Z0 | Some p -> Zneg p)
-  else (match pos_of_hex s with None -> Z0 | Some p -> Zpos p)
+    (match pos_of_hex (String.sub s 1 (String.length s - 1)) with None -> M.Z0 | Some p -> M.Zneg p)
+  else (match pos_of_hex s with None -> M.Z0 | Some p -> M.Zpos p)
 
-let n_of_int (i : int) : n =
-  if i = 0 then N0 else
-  let rec go i = if i = 1 then XH else if i land 1 = 0 then XO (go (i lsr 1)) else XI (go (i lsr 1)) in
-  Npos (go i)
+let n_of_int (i : int) : M.n =
+  if i = 0 then M.N0 else
+  let rec go i = if i = 1 then M.XH else if i land 1 = 0 then M.XO (go (i lsr 1)) else M.XI (go (i lsr 1)) in
+  M.Npos (go i)
 
-let rec int_of_pos = function XH -> 1 | XO p -> 2 * int_of_pos p | XI p -> 2 * int_of_pos p + 1
-let int_of_n = function N0 -> 0 | Npos p -> int_of_pos p
+let rec int_of_pos = function M.XH -> 1 | M.XO p -> 2 * int_of_pos p | M.XI p -> 2 * int_of_pos p + 1
+let int_of_n = function M.N0 -> 0 | M.Npos p -> int_of_pos p
 
-let hex_of_pos (p : positive) : string =
+let hex_of_pos (p : M.positive) : string =
   (* bits least significant first *)
-  let rec bits p acc = match p with XH -> true :: acc | XO q -> bits q (false :: acc) | XI q -> bits q (true :: acc) in
+  let rec bits p acc = match p with M.XH -> true :: acc | M.XO q -> bits q (false :: acc) | M.XI q -> bits q (true :: acc) in
   let msb_first = bits p [] in
   let n = List.length msb_first in
   let pad = (4 - n mod 4) mod 4 in
@@ -51,15 +51,15 @@ let hex_of_pos (p : positive) : string =
   done;
   Buffer.contents b
 
-let parse_line (s : string) : sx =
+let parse_line (s : string) : M.sx =
   let n = String.length s in
   let pos = ref 0 in
   let rec skip () = if !pos < n && (s.[!pos] = ' ' || s.[!pos] = '\t' || s.[!pos] = '\r') then (incr pos; skip ()) in
-  let rec item () : sx =
+  let rec item () : M.sx =
     skip ();
     if !pos >= n then failwith "unexpected end of line";
     match s.[!pos] with
-    | '(' -> incr pos; let l = items [] in L l
+    | '(' -> incr pos; let l = items [] in M.L l
     | '"' ->
       incr pos;
       let start = !pos in
@@ -68,30 +68,30 @@ let parse_line (s : string) : sx =
       incr pos;
       let len = String.length h / 2 in
       let rec go i acc = if i < 0 then acc else go (i-1) (n_of_int (16 * hexval h.[2*i] + hexval h.[2*i+1]) :: acc) in
-      B (go (len-1) [])
+      M.B (go (len-1) [])
     | _ ->
       let start = !pos in
       while !pos < n && s.[!pos] <> ' ' && s.[!pos] <> ')' && s.[!pos] <> '(' do incr pos done;
-      A (z_of_hex (String.sub s start (!pos - start)))
-  and items acc : sx list =
+      M.A (z_of_hex (String.sub s start (!pos - start)))
+  and items acc : M.sx list =
     skip ();
     if !pos >= n then failwith "missing )";
     if s.[!pos] = ')' then (incr pos; List.rev acc) else let x = item () in items (x :: acc)
   in
   item ()
 
-let rec print_sx (b : Buffer.t) (x : sx) : unit =
+let rec print_sx (b : Buffer.t) (x : M.sx) : unit =
   match x with
-  | A Z0 -> Buffer.add_char b '0'
-  | A (Zpos p) -> Buffer.add_string b (hex_of_pos p)
-  | A (Zneg p) -> Buffer.add_char b '-'; Buffer.add_string b (hex_of_pos p)
-  | B l ->
+  | M.A M.Z0 -> Buffer.add_char b '0'
+  | M.A (M.Zpos p) -> Buffer.add_string b (hex_of_pos p)
+  | M.A (M.Zneg p) -> Buffer.add_char b '-'; Buffer.add_string b (hex_of_pos p)
+  | M.B l ->
     Buffer.add_char b '"';
     List.iter (fun c -> let v = int_of_n c in
       Buffer.add_char b "0123456789abcdef".[(v lsr 4) land 15];
       Buffer.add_char b "0123456789abcdef".[v land 15]) l;
     Buffer.add_char b '"'
-  | L l ->
+  | M.L l ->
     Buffer.add_char b '(';
     List.iteri (fun i y -> if i > 0 then Buffer.add_char b ' '; print_sx b y) l;
     Buffer.add_char b ')'
@@ -104,7 +104,7 @@ let () =
       let line = input_line stdin in
       if String.length line > 0 then begin
         let x = parse_line line in
-        let y = dispatch code x in
+        let y = M.dispatch code x in
         Buffer.clear b;
         print_sx b y;
         Buffer.add_char b '\n';
